@@ -18,13 +18,15 @@ META = {
     "text": "ProofTable.tla transcribes section 6 of docs/proxy-proof-spec.md as a total function over field-level "
             "faults (header absent/empty/multi-instance/over-long, field count, version, charset of each of the four "
             "fields, kid known (two configured kids = rotation overlap) / unknown, clock at skew-1/skew/skew+1 on "
-            "both sides, six MAC relations, five nonce histories).  TLC enumerates every combination of structural "
+            "both sides, six MAC relations, six nonce histories incl. a replay through the other configured kid).  TLC enumerates every combination of structural "
             "faults (steps 2-4) x every combination of later-step failures (steps 5-9), plus the full semantic product "
             "for structurally clean headers (9,728 cases quick; thorough: the complete product, 239,402 cases), with the reason of the first failing "
             "step, checks eight table-sanity invariants and refutes the faithful variant (Dev_GateEmptyIsAbsent).  Each "
             "case is concretised into real HMAC-keyed headers (several mutations per fault, exact 512/513-byte "
             "boundaries) and run through verify_proof (injected clock and NonceCache clock), through the require-mode "
-            "proxy_proof_gate on a real falcon.Request, and (subset) through the full WSGI app for the 401; TLC judges "
+            "proxy_proof_gate on a real falcon.Request, through the allow-mode gate (answer recorded in the claims), with the "
+            "default clocks (now=None: wall clock / monotonic cache, a minute away from the window edge), and (subset) through "
+            "the full WSGI app for the 401, both as require_all(gate) and as require_all(gate, bearer authenticator); TLC judges "
             "every observation with ProofTable!Conforms.",
     "note": "Trusted: the transcription of the nine-step table; the harness's own HMAC/canonical-string "
             "implementation of spec section 4 (independent of vgi_rpc); the per-fault mutation lists.  Set-valued "
